@@ -752,6 +752,14 @@ fn case_coinid(rng: &mut Rng) -> Case {
             v
         }
         10 => vec![0, 0, 1],
+        // every (length, first byte, second byte) class around the 8/9/10-byte boundary of the u64 amount
+        11 | 12 => {
+            let n_ = *rng.pick(&[8usize, 9, 10, 11, 16]);
+            let mut v = rng.bytes(n_);
+            v[0] = *rng.pick(&[0u8, 0, 0, 1, 0x7f, 0x80, 0xff]);
+            v[1] = *rng.pick(&[0u8, 0x7f, 0x80, 0x80, 0xff]);
+            v
+        }
         _ => {
             let mut v = { let n_ = (1 + rng.below(8)) as usize; rng.bytes(n_) };
             v[0] = 1 + rng.below(127) as u8;
@@ -1123,6 +1131,23 @@ pub fn generate(name: &str, rng: &mut Rng, n: usize, tier: &str) -> Vec<String> 
             out.push(line(&format!("p{}", i), c.op, c.flags, u64::MAX, &c.args, "f"));
         }
         return out;
+    }
+    // 0. coinid: every (length, first byte, second byte) class of the amount around the u64 boundary
+    {
+        let (p, h) = (rng.bytes(32), rng.bytes(32));
+        let mut i = 0;
+        for n_ in [7usize, 8, 9, 10, 11, 17] {
+            for b0 in [0u8, 1, 0x7f, 0x80, 0xff] {
+                for b1 in [0u8, 0x7f, 0x80, 0xff] {
+                    let mut v = rng.bytes(n_);
+                    v[0] = b0;
+                    v[1] = b1;
+                    let args = T::list(vec![T::A(p.clone()), T::A(h.clone()), T::A(v)]);
+                    out.push(line(&format!("k{}", i), "coinid", 0, u64::MAX, &args, "f"));
+                    i += 1;
+                }
+            }
+        }
     }
     // 1. the repository's vectors (sampled in the quick tier; all of them in the thorough tier)
     let vectors = load_vectors();
